@@ -368,7 +368,7 @@ class SimpleCorrelator(AbstractCorrelator):
         self._store[seq_key] = (stored_at, smpp_message)
         if isinstance(smpp_message, SubmitSm):
             ref_num, seq_num, total_segments = smpp_message.get_segmentation_data()
-            if total_segments > 0:
+            if 0 < total_segments <= 255:  # sar_total_segments is a single octet
                 # This is a part of a segmented message. Its status is stored under the reference
                 # number combined with the sequence number of its first segment: the 8-bit
                 # reference number alone is re-used after 256 messages, possibly while an older
